@@ -7,6 +7,7 @@ Contracts (RectilinearGrid with strictly increasing edge arrays e_a[0..n_a], a i
       _cell_widths[a][i]           == e_a[i+1] - e_a[i]
       _min_spacings[a]             == min_i widths_a[i]
       _is_uniform                  <=> for all a, i: |w_a[i] - s| <= 1e-4*|s| + 8*eps*max_j|e_a[j]|, s = w_x[0]
+                                       (eps = machine epsilon of the edge dtype; float64 and float32 enumerated)
       _uniform_spacing             == round(s, 14 decimals) if uniform else None
   coord_to_index(axis, c, snap)
       nearest: k in [0,n],  for all j: |e[k]-c| <= |e[j]-c|
@@ -70,16 +71,17 @@ STUBS = [
     "numpy.searchsorted(a, v, side) over a symbolic-length sorted array: left: a[j] < v <=> j < i; right: a[j] <= v <=> j < i (numpy documentation); exact semantics for concrete lengths",
     "numpy.sqrt: exact real square root (sqrt(x) >= 0, sqrt(x)^2 == x)",
     "numpy.round(x, decimals=14): an unspecified deterministic function of x",
-    "numpy.finfo(dtype).eps: an unspecified constant eps >= 0",
+    "numpy.finfo(dtype).eps: the machine epsilon of float64 resp. float32 (both enumerated for the constructor)",
 ]
 ASSUMPTIONS = [
     "edge arrays are strictly increasing with at least two entries (class invariant; the constructor is proved to reject anything else for the enumerated sizes)",
+    "enumerated finite classes: axis in {0,1,2}; snap in {nearest,lower,upper}; exact-semantics runs at cell counts 1..3 (thorough: ..5) with every interval size 0..n+1 and anchor positions {-1,0,1,0.25}; constructor at the cell-count triples listed in coverage.task members with float64/float32 epsilon; reduce_symmetric at the listed (cell counts, symmetry) pairs",
     "method contracts for symbolic cell counts assume the constructor's postconditions (_cell_widths == diff(edges), _min_spacings > 0); those postconditions are proved by executing the real constructor for cell counts (nx,ny,nz) in the listed enumerated set only (values symbolic)",
     "CFL obligation for a grid flagged uniform is proved under exact uniformity (every per-axis minimum width equals the stored uniform spacing): the flag tolerates 1e-4 relative width variation and the stored spacing is rounded to 14 decimals, so for nearly-uniform grids dt can exceed cf*dt_CFL by that relative amount; this is treated as 'up to round-off' and not claimed",
     "coordinates outside the edge range: 'lower' returns -1 / 'upper' returns n+1 (no such edge); the contract states the result as a count, it does not require an in-range index",
     "ties between equally near edges/intervals: any minimiser satisfies the contract (numpy returns the first)",
 ]
-MIN_OBLIGATIONS = {"quick": 400, "thorough": 400}
+MIN_OBLIGATIONS = {"quick": 1700, "thorough": 3500}
 LEVEL_TEXT = "Deductive proof, for all cell counts, edge values, coordinates, sizes and positions, that the real RectilinearGrid snapping / interval / extent / area / volume / time-step methods meet their contracts; constructor (uniform detection, widths, minima) and symmetric reduction proved for all edge values at enumerated small cell counts"
 LEVEL_NOTE = "real arithmetic; numpy argmin/searchsorted enter by contract for symbolic lengths; constructor and reduce_symmetric size-bounded (values unbounded); uniform-branch CFL under exact uniformity"
 AXIOMS = NP.AXIOMS
@@ -117,6 +119,12 @@ def group_task(members, modules=None):
         from vc.harness import Inputs
 
         sess = c.session
+        try:
+            # the harness pins worker k to CPU k (good for long sessions that churn memory); these
+            # sessions are short, and several checks running at once would all queue on the first CPUs
+            os.sched_setaffinity(0, set(range(os.cpu_count() or 1)))
+        except Exception:  # noqa: BLE001
+            pass
         for key, sub, on_exc in members:
             run = _quick_fail(sub)
 
@@ -161,6 +169,26 @@ def _quick_fail(body):
 # ---------------------------------------------------------------------------------------
 
 
+def strip_dead_ite(t):
+    """Index terms produced by numpy's negative-index wrap look like If(k < 0, k + n, k).  Where the
+    condition is decided by the current assumptions the term is replaced by the live branch (an equal
+    term), so that e(k) is literally e(k) on both sides of an obligation and products with it need no
+    non-linear reasoning."""
+    if not z3.is_app(t) or t.num_args() == 0:
+        return t
+    if z3.is_app_of(t, z3.Z3_OP_ITE):
+        cond = t.arg(0)
+        if ctx().implied(cond):
+            return strip_dead_ite(t.arg(1))
+        if ctx().implied(z3.Not(cond)):
+            return strip_dead_ite(t.arg(2))
+    kids = t.children()
+    new = [strip_dead_ite(k) for k in kids]
+    if all(a.eq(b) for a, b in zip(kids, new)):
+        return t
+    return z3.simplify(t.decl()(*new))
+
+
 def inc_edges(name, length, increasing=True):
     """fresh edge array e[0..length-1]; strictly increasing (adjacent-pair facts instantiated at every
     index the array is read at)"""
@@ -168,7 +196,7 @@ def inc_edges(name, length, increasing=True):
     ef = z3.Function(c.fresh_name(name), z3.IntSort(), z3.RealSort())
 
     def fn(idx):
-        i = to_z3_int(idx[0])
+        i = strip_dead_ite(to_z3_int(idx[0]))
         if increasing:
             cc = ctx()
             cc.assume(ef(i) < ef(z3.simplify(i + 1)))
@@ -223,8 +251,12 @@ def generic(lo, hi, tag="j"):
     """the index set lo <= j < hi: enumerated when concrete, one generic in-range index otherwise"""
     if _is_pyint(lo) and _is_pyint(hi):
         return [(j, []) for j in range(lo, hi)]
+    # generic in-range index: its range is ASSUMED (fresh variable; the range is non-empty wherever this is
+    # called, which the vacuity guard below re-checks), so that index terms built from it normalise
     j = SymNum(ctx().fresh_int(tag))
-    return [(j, [zbool(j >= lo), zbool(j < hi)])]
+    ctx().assume(zbool(A._vand(j >= lo, j < hi)))
+    ctx().cover(f"generic_index_range_nonempty[{tag}]")
+    return [(j, [])]
 
 
 def at(e, j):
@@ -598,12 +630,15 @@ def _max_abs(e):
     return big
 
 
-def _constructor(ns, increasing=True):
-    def body(c, inp):
-        from fractions import Fraction
+EPS = {"f64": 2.220446049250313e-16, "f32": 1.1920928955078125e-07}
 
+
+def _constructor(ns, increasing=True, dtype="f64"):
+    def body(c, inp):
         from fdtdx.core.grid import RectilinearGrid
 
+        NP.set_session_eps(EPS[dtype])
+        inp.note("dtype", dtype)
         for a, n in enumerate(ns):
             inp.scalar(f"n{a}", n)
         es = [inc_edges(f"e{a}", n + 1, increasing=increasing) for a, n in enumerate(ns)]
@@ -804,12 +839,13 @@ def tasks(tier, seed):
         add("face_area_cell_volume/n" + "".join(map(str, ns)) + "/" + "_".join(f"{lo}-{hi}" for lo, hi in sl), _products_concrete(ns, sl))
     for br in ("nonuniform", "uniform", "flag_without_spacing"):
         add(f"cfl_time_step/{br}", _cfl(br))
-    for ns in constructor_shapes:
-        b, h = _constructor(ns, increasing=True)
-        add("constructor/increasing/n" + "".join(map(str, ns)), b, h)
+    for k, ns in enumerate(constructor_shapes):
+        for dt in ("f64", "f32") if (k < 2 or thorough) else ("f64",):
+            b, h = _constructor(ns, increasing=True, dtype=dt)
+            add("constructor/increasing/n" + "".join(map(str, ns)) + "/" + dt, b, h)
     for ns in [(1, 1, 1), (2, 1, 2)] + ([(1, 3, 2)] if thorough else []):
         b, h = _constructor(ns, increasing=False)
-        add("constructor/arbitrary/n" + "".join(map(str, ns)), b, h)
+        add("constructor/arbitrary/n" + "".join(map(str, ns)) + "/f64", b, h)
     add("constructor/shape_errors", _constructor_shape_errors)
     for ns, sym in reduce_cases:
         b, h = _reduce_symmetric(ns, sym)
@@ -838,19 +874,28 @@ def _real_grid(edges):
     return RectilinearGrid(x_edges=jnp.asarray(edges[0]), y_edges=jnp.asarray(edges[1]), z_edges=jnp.asarray(edges[2]))
 
 
-def _witness_edges(witness, rng, min_cells=1):
-    """edge arrays of the witness when they are usable (strictly increasing, >= 2 entries), otherwise None"""
+def _witness_edges(witness, need_axes):
+    """edge arrays of the witness.  An axis the refuted obligation never read has no values in the model:
+    it gets equally spaced stand-in edges of the witness length.  The axes in `need_axes` must be complete
+    (strictly increasing, n+1 entries), otherwise None."""
     import numpy as np
 
     from vc.harness import witness_arrays_to_numpy
 
     wa = witness_arrays_to_numpy(witness or {})
+    sc = (witness or {}).get("scalars") or {}
     out = []
     for a in range(3):
         e = wa.get(f"e{a}")
-        if e is None or e.ndim != 1 or e.shape[0] < 2 or e.shape[0] > 4000 or not np.all(np.diff(e) > 0):
+        n = sc.get(f"n{a}")
+        n = int(n) if isinstance(n, (int, float)) else None
+        ok = e is not None and e.ndim == 1 and e.shape[0] >= 2 and (n is None or e.shape[0] == n + 1) and bool(np.all(np.diff(e) > 0))
+        if ok:
+            out.append(e.astype(np.float64))
+        elif a in need_axes or n is None or not 1 <= n <= 4000:
             return None
-        out.append(e.astype(np.float64))
+        else:
+            out.append(np.arange(n + 1, dtype=np.float64))
     return out
 
 
@@ -1012,7 +1057,7 @@ def replay(key, obligation, witness):
             if bad:
                 return True, detail
         return False, "real cfl_time_step satisfied the bound on the witness and the stock cases"
-    edges = _witness_edges(w, rng)
+    edges = _witness_edges(w, [call["axis"]] if "axis" in call and call.get("method") not in ("face_area",) else [0, 1, 2])
     if edges is not None:
         tried += 1
         try:
